@@ -130,7 +130,7 @@ def run_one(ctx, src, scopes, config, keep, workdir, cli=False):
         from pico8 import tool
         from .. import carts, refcodec as rc
         regions, _ = carts.random_regions(ctx.rng, 'zero')
-        p1 = os.path.join(workdir, 'n.p8')
+        p1 = os.path.join(workdir, ambient.BASE[0] + '.p8')
         with open(p1, 'wb') as fh:
             fh.write(rc.write_p8(regions, src, version=8))
         argv = [ambient.vflag(), 'luamin'] + (['--keep-all-names'] if config.startswith('keep_all') else []) + (
@@ -139,7 +139,7 @@ def run_one(ctx, src, scopes, config, keep, workdir, cli=False):
         prev_src = ctx.extra.get('_prev_cli_src')
         extra_paths = []
         if prev_src is not None:
-            p0 = os.path.join(workdir, 'm0.p8')
+            p0 = os.path.join(workdir, ambient.BASE[0] + '-0.p8')
             with open(p0, 'wb') as fh:
                 fh.write(rc.write_p8(regions, prev_src, version=8))
             extra_paths = [p0]
@@ -147,9 +147,9 @@ def run_one(ctx, src, scopes, config, keep, workdir, cli=False):
         ctx.extra['_prev_cli_src'] = src
         try:
             rcode = tool.main(argv + extra_paths + [p1])
-            got = rc.read_p8(open(os.path.join(workdir, 'n_fmt.p8'), 'rb').read())['code']
+            got = rc.read_p8(open(os.path.join(workdir, ambient.BASE[0] + '_fmt.p8'), 'rb').read())['code']
             if extra_paths:
-                got0 = rc.read_p8(open(os.path.join(workdir, 'm0_fmt.p8'), 'rb').read())['code']
+                got0 = rc.read_p8(open(os.path.join(workdir, ambient.BASE[0] + '-0_fmt.p8'), 'rb').read())['code']
                 want0 = prev_src if prev_src.endswith(b'\n') else prev_src + b'\n'
                 pr0, pairs0, _ = minify.align(want0, got0, None)
                 if pr0 is None:
